@@ -172,6 +172,12 @@ impl Monitor for C03 {
         if n < 2 {
             return Ok(());
         }
+        {
+            let stakes: Vec<TxHash> = txs.iter().filter(|t| t.kind == melstructs::TxKind::Stake).map(|t| t.hash_nosigs()).collect();
+            if txs.iter().any(|t| t.inputs.iter().any(|i| i.index >= 1 && stakes.contains(&i.txhash))) {
+                st.class("set-with-a-stake-and-a-spend-of-its-change-output");
+            }
+        }
         // duplicates make "the set" smaller than the list; keep them (a repeated transaction must be judged the same way in any position)
         let perms = permutations(n, 24, h64(&ob.pre.coins_root));
         let mut reference: Option<(Vec<usize>, usize, bool, Option<Header>)> = None;
@@ -279,6 +285,31 @@ impl Monitor for C03 {
             st.class("accepted-set");
         } else {
             st.class("rejected-set");
+            // the other direction of "equals applying the same transactions one at a time": a set that is refused as a
+            // batch must not go through when its members are applied one at a time, parents first. (Sets listing the
+            // same body twice are left out: a set has no duplicates, and the one-at-a-time run would skip the copy.)
+            let distinct: HashSet<TxHash> = txs.iter().map(|t| t.hash_nosigs()).collect();
+            if let (Some((_, _, false, _)), true) = (&reference, distinct.len() == n) {
+                let order = topo(txs);
+                let pool = &self.pools[0].1;
+                let r = catch(|| {
+                    pool.install(|| {
+                        let mut s = ob.pre_state.clone();
+                        for i in order.iter() {
+                            s.apply_tx(&txs[*i]).map_err(|e| format!("{:?}", e))?;
+                        }
+                        Ok::<(), String>(())
+                    })
+                });
+                match r {
+                    Ok(Ok(())) => {
+                        let kinds: Vec<String> = order.iter().map(|i| format!("{:?}", txs[*i].kind)).collect();
+                        viol!("batch-rejected-but-sequence-accepted", "a set of {} transactions is refused as a batch (in every tested order) but every one of them is accepted when they are applied one at a time, parents first (order {:?})", n, kinds);
+                    }
+                    Ok(Err(_)) => st.class("rejected-set-also-rejected-one-at-a-time"),
+                    Err(_) => st.exclude("panicked"),
+                }
+            }
         }
         if has_dependency(txs) && child_first_tested {
             let mut d = ob.pre.coins_root.to_vec();
@@ -345,6 +376,8 @@ pub fn profile() -> Profile {
     p.max_steps = 10;
     p.lead_blocks = 6;
     p.heavy_bias = true;
+    p.prefer_stake_change = true;
+    p.kind_w[5] = 9;
     // genuine proof-of-work mints, from a low recorded speed so that a mint raises it: several mints in one set
     p.kind_w[7] = 7;
     p.low_dosc_start = true;
@@ -380,7 +413,7 @@ pub fn run(ctx: &Ctx) -> (Outcome, String, Option<bool>) {
     }
     let mut out = out;
     out.absorb(crate::runner::run_sharded(ctx, "big-honest-blocks", ctx.scale(4, 48), super::c06::arb_big_block, |c, st, shard| super::c06::check_big_block(c, st, shard)));
-    let rule = "Also: honest blocks of 150-420 transactions with dependencies (C06's big-block scenarios) must be accepted by their parent under 4 differently ordered transaction sets. For every batch of >=2 transactions met in generated histories (independent, chains, fan-in/fan-out, repeated, mutated; acceptable and unacceptable), from the state it was generated for: every permutation (all n! for n<=4, otherwise identity, reverse and 22 pseudo-random ones) x rayon pools of 1 and 4 threads; (accepted?, header of apply_tx_batch(perm).seal(with a fixed proposer action, so that the fee-pool / tips split is visible)) must be identical for all, and - when accepted - equal to applying the transactions one at a time in up to three different orders in which parents precede children (the set as presented, reversed, rotated). Sets include genuine proof-of-work mints (7%) from a low recorded DOSC speed. Every sealed block with >=2 transactions is re-validated by its parent through apply_block under 8 differently built HashSets (fresh RandomState, rotated/reversed insertion) on alternating pool sizes and must give the same result. Before a batch is applied, variants of it with the same signature-free bodies but stripped / bit-flipped signatures are judged on a scratch copy; they are judged again after the properly signed batch has been validated and must get the same verdict (the outcome may not depend on what the process validated earlier). Thorough tier only: 48 generated histories are additionally executed in two fresh child processes each (own hash seeds, nothing validated before) and must give the same accept/reject sequence and header hashes as in the warmed-up parent process. Non-trivial = a set with a dependency for which a tested permutation puts a child before its parent; distinct by (pre-state coin root, set of transaction hashes).".to_string();
+    let rule = "Also: honest blocks of 150-420 transactions with dependencies (C06's big-block scenarios) must be accepted by their parent under 4 differently ordered transaction sets. For every batch of >=2 transactions met in generated histories (independent, chains, fan-in/fan-out, repeated, mutated; acceptable and unacceptable), from the state it was generated for: every permutation (all n! for n<=4, otherwise identity, reverse and 22 pseudo-random ones) x rayon pools of 1 and 4 threads; (accepted?, header of apply_tx_batch(perm).seal(with a fixed proposer action, so that the fee-pool / tips split is visible)) must be identical for all, and - when accepted - equal to applying the transactions one at a time in up to three different orders in which parents precede children (the set as presented, reversed, rotated). A set that is refused as a batch (and lists no body twice) must also be refused - at some member - when applied one at a time, parents first. Sets include genuine proof-of-work mints (7%) from a low recorded DOSC speed. Every sealed block with >=2 transactions is re-validated by its parent through apply_block under 8 differently built HashSets (fresh RandomState, rotated/reversed insertion) on alternating pool sizes and must give the same result. Before a batch is applied, variants of it with the same signature-free bodies but stripped / bit-flipped signatures are judged on a scratch copy; they are judged again after the properly signed batch has been validated and must get the same verdict (the outcome may not depend on what the process validated earlier). Thorough tier only: 48 generated histories are additionally executed in two fresh child processes each (own hash seeds, nothing validated before) and must give the same accept/reject sequence and header hashes as in the warmed-up parent process. Non-trivial = a set with a dependency for which a tested permutation puts a child before its parent; distinct by (pre-state coin root, set of transaction hashes).".to_string();
     (out, rule, None)
 }
 
